@@ -350,6 +350,6 @@ def check_offset_delay(spec, ctx):
 
 def parts():
     return [
-        Part("shapes", check, strategy=shape(), budget={"quick": 2500, "thorough": 120000}),
+        Part("shapes", check, strategy=shape(), budget={"quick": 2500, "thorough": 120000}, fuzz={"thorough": 20000}),
         Part("offset_delay_enum", check_offset_delay, enumerate=enum_offset_delay, exhaustive=True),
     ]
